@@ -1,0 +1,77 @@
+//! Native stand-ins for the JavaScript host (feature `beff_verif` only): an in-memory disk, a diagnostics sink and
+//! String-returning entry points over the same inner functions the wasm exports call.
+use std::cell::RefCell;
+use std::collections::BTreeMap;
+
+thread_local! {
+    static DISK: RefCell<BTreeMap<String, String>> = const { RefCell::new(BTreeMap::new()) };
+    static DIAGS: RefCell<Vec<String>> = const { RefCell::new(Vec::new()) };
+}
+
+/// Writes (Some) or deletes (None) a file of the in-memory disk of this thread.
+pub fn set_disk_file(name: &str, content: Option<&str>) {
+    DISK.with(|d| {
+        let mut d = d.borrow_mut();
+        match content {
+            Some(c) => {
+                d.insert(name.to_string(), c.to_string());
+            }
+            None => {
+                d.remove(name);
+            }
+        }
+    })
+}
+
+pub fn disk_snapshot() -> BTreeMap<String, String> {
+    DISK.with(|d| d.borrow().clone())
+}
+
+pub(crate) fn read_file_content(file_name: &str) -> Option<String> {
+    DISK.with(|d| d.borrow().get(file_name).cloned())
+}
+
+/// `./x` resolves to `x.ts` (or to `x` when it already ends in .ts/.tsx) if that file is on the disk.
+pub(crate) fn resolve_import(_current_file: &str, specifier: &str) -> Option<String> {
+    let rest = specifier.strip_prefix("./")?;
+    let name = if rest.ends_with(".ts") || rest.ends_with(".tsx") {
+        rest.to_string()
+    } else {
+        format!("{rest}.ts")
+    };
+    DISK.with(|d| d.borrow().contains_key(&name).then_some(name))
+}
+
+pub(crate) fn emit_diagnostic(json: String) {
+    DIAGS.with(|d| d.borrow_mut().push(json))
+}
+
+pub fn take_diagnostics() -> Vec<String> {
+    DIAGS.with(|d| std::mem::take(&mut *d.borrow_mut()))
+}
+
+pub fn update_file_content(file_name: &str, content: &str) {
+    crate::update_file_content_inner(file_name, content)
+}
+
+pub fn bundle_to_string(parser_entry_point: &str, settings: &str) -> Result<String, String> {
+    crate::bundle_to_string_inner(crate::parse_entrypoints(parser_entry_point, settings)).map_err(|e| e.to_string())
+}
+
+pub fn bundle_to_diagnostics(parser_entry_point: &str, settings: &str) -> String {
+    let v = crate::bundle_to_diagnostics_inner(crate::parse_entrypoints(parser_entry_point, settings));
+    serde_json::to_string(&v).expect("should be able to serialize diagnostics")
+}
+
+/// The cache of this thread: file name and the source text its cached module was parsed from, sorted by name.
+pub fn cached_sources() -> Vec<(String, String)> {
+    let mut v: Vec<(String, String)> = crate::BUNDLER.with(|b| {
+        b.borrow()
+            .files
+            .iter()
+            .map(|(k, m)| (k.to_string(), m.module.fm.src.to_string()))
+            .collect()
+    });
+    v.sort();
+    v
+}
